@@ -14,6 +14,7 @@ import (
 	"strings"
 
 	"golang.org/x/tools/go/ssa"
+	"golang.org/x/tools/go/ssa/ssautil"
 )
 
 func init() {
@@ -25,7 +26,28 @@ func init() {
 }
 
 // libFuncs: all functions (incl. anonymous) of the library packages (no cmd/, examples/, testdata).
+// liftedFuncs builds (once) a second SSA program in the default, register-lifted form: the
+// footprint analyses are flow-insensitive per SSA value, so they need one value per assignment.
+func (v *Verifier) liftedFuncs() (map[string]*ssa.Function, *ssa.Program) {
+	if v.funcs2 != nil {
+		return v.funcs2, v.prog2
+	}
+	prog, _ := ssautil.AllPackages(v.pkgs, ssa.InstantiateGenerics)
+	prog.Build()
+	v.prog2 = prog
+	v.funcs2 = map[string]*ssa.Function{}
+	for fn := range ssautil.AllFunctions(prog) {
+		pp := funcPkgPath(fn)
+		if pp == "" || !strings.HasPrefix(pp, v.modPath) || fn.Parent() != nil || fn.Synthetic != "" {
+			continue
+		}
+		v.funcs2[pp+":"+funcKey(fn)] = fn
+	}
+	return v.funcs2, v.prog2
+}
+
 func (v *Verifier) libFuncs() []*ssa.Function {
+	funcs, prog := v.liftedFuncs()
 	var out []*ssa.Function
 	seen := map[*ssa.Function]bool{}
 	var add func(fn *ssa.Function)
@@ -39,7 +61,7 @@ func (v *Verifier) libFuncs() []*ssa.Function {
 			add(a)
 		}
 	}
-	for k, fn := range v.funcs {
+	for k, fn := range funcs {
 		pkg := k[:strings.Index(k, ":")]
 		rel := strings.TrimPrefix(strings.TrimPrefix(pkg, v.modPath), "/")
 		if strings.HasPrefix(rel, "cmd") || strings.HasPrefix(rel, "examples") || strings.Contains(rel, "testdata") {
@@ -51,7 +73,7 @@ func (v *Verifier) libFuncs() []*ssa.Function {
 		add(fn)
 	}
 	// package initialisers
-	for _, p := range v.prog.AllPackages() {
+	for _, p := range prog.AllPackages() {
 		if p.Pkg == nil || !strings.HasPrefix(p.Pkg.Path(), v.modPath) {
 			continue
 		}
@@ -795,4 +817,98 @@ func (v *Verifier) fpDeterminism() (map[string]any, []staticProblem) {
 	ps := dedupProblems(probs)
 	return map[string]any{"name": "determinism", "obligations": obl, "discharged": obl - len(ps), "reviewed_occurrences": fl,
 		"statement": "no library function reads the clock, a random source or the environment, and every map iteration is on the reviewed allow-list (order does not reach the output)"}, ps
+}
+
+// ---- C18 (4): no write through the caller's parameters object ----------------------------------
+// Seeds: every parameter of interface type codec.Parameters of a codec method.  Functions that are
+// under a govc contract with an assigns clause (the Validate methods: "requires valid(p), assigns
+// nothing") are proved by the deductive back end and skipped here.
+func (v *Verifier) fpParams() (map[string]any, []staticProblem) {
+	seeds := map[ssa.Value]bool{}
+	for _, fn := range v.libFuncs() {
+		if fn.Signature.Recv() == nil || len(fn.Params) == 0 || !isCodecType(fn.Params[0].Type()) {
+			continue
+		}
+		for _, p := range fn.Params[1:] {
+			if n, ok := p.Type().(*types.Named); ok && n.Obj().Name() == "Parameters" && n.Obj().Pkg() != nil && strings.HasSuffix(n.Obj().Pkg().Path(), "imaging/codec") {
+				seeds[p] = true
+			}
+		}
+	}
+	t := newTaint(v, func(val ssa.Value) taintLevel {
+		if seeds[val] {
+			return dirty
+		}
+		return clean
+	})
+	t.run()
+	var probs []staticProblem
+	obl, ok, viaContract := 0, 0, 0
+	var samples []string
+	for _, fn := range t.funcs {
+		touches := false
+		for _, p := range fn.Params {
+			if t.get(p) > clean {
+				touches = true
+			}
+		}
+		if !touches {
+			continue
+		}
+		obl++
+		if fc := v.contracts.Funcs[funcPkgPath(fn)+":"+funcKey(fn)]; fc != nil && fc.HasAssign && !fc.Trusted {
+			viaContract++
+			ok++
+			continue
+		}
+		ws := t.writesTo(fn)
+		if len(ws) == 0 {
+			ok++
+			if len(samples) < 3 {
+				samples = append(samples, "no write through the parameters object in "+fn.String())
+			}
+			continue
+		}
+		probs = append(probs, staticProblem{Key: shortPkg(funcPkgPath(fn)) + "." + funcKey(fn), Msg: fmt.Sprintf("%s %s the caller's parameters object at %s", fn.String(), ws[0].what, ws[0].pos)})
+	}
+	return map[string]any{"name": "params", "obligations": obl, "discharged": ok, "discharged_by_contract": viaContract, "parameter_arguments": len(seeds), "samples": samples,
+		"statement": "no function that can see the caller's codec.Parameters object writes through it; Validate methods are proved write-free on valid objects by their contracts"}, dedupProblems(probs)
+}
+
+// ---- C18 (5): GetDefaultParameters returns a fresh object --------------------------------------
+func (v *Verifier) fpFreshDefaults() (map[string]any, []staticProblem) {
+	var targets []*ssa.Function
+	recv := map[ssa.Value]bool{}
+	for _, fn := range v.libFuncs() {
+		if fn.Name() == "GetDefaultParameters" && fn.Signature.Recv() != nil && len(fn.Params) > 0 {
+			targets = append(targets, fn)
+			recv[fn.Params[0]] = true
+		}
+	}
+	t := newTaint(v, func(val ssa.Value) taintLevel {
+		if recv[val] {
+			return dirty
+		}
+		if g, ok := val.(*ssa.Global); ok && g.Pkg != nil && strings.HasPrefix(g.Pkg.Pkg.Path(), v.modPath) {
+			return dirty
+		}
+		return clean
+	})
+	t.run()
+	var probs []staticProblem
+	ok := 0
+	for _, fn := range targets {
+		if t.ret[fn] > clean {
+			probs = append(probs, staticProblem{Key: shortPkg(funcPkgPath(fn)) + "." + funcKey(fn), Msg: fn.String() + " may return an object reachable from the codec or from a package-level variable: defaults would be shared between callers"})
+		} else {
+			ok++
+		}
+	}
+	return map[string]any{"name": "freshdefaults", "obligations": len(targets), "discharged": ok,
+		"statement": "GetDefaultParameters of every codec returns memory that is not reachable from the codec object or a package-level variable"}, dedupProblems(probs)
+}
+
+func init() {
+	staticBackends["params"] = (*Verifier).fpParams
+	staticBackends["freshdefaults"] = (*Verifier).fpFreshDefaults
 }
